@@ -47,7 +47,11 @@ func main() {
 	}
 	var jobs []job
 	for _, w := range ws {
-		for rep := 0; rep < reps; rep++ {
+		n := reps
+		if heavyWorkloads[w.name] {
+			n = reps / 4
+		}
+		for rep := 0; rep < n; rep++ {
 			jobs = append(jobs, job{w, rep, []int{2, 4, 16}[rep%3], 0})
 		}
 	}
